@@ -29,3 +29,50 @@ Print Assumptions C20_unlocked_refuted.
 Example C20_nonvacuous :
   results (crun true (cinit 3) [0;1;2;0;0;1;0;2;0;0; 1;1;1;1;1; 2;2;2;2;2]) = [0; 0; 0].
 Proof. vm_compute. reflexivity. Qed.
+
+(* ---- the constructors as programs (Model/NewProg.v) ----
+   Each __new__ is translated at every run, instruction by instruction, into a program over: look the key up into a local, return
+   the local / the table entry if present, allocate, store, setdefault, take and leave the lock, lines that may raise or return
+   something else.  [prog_safe] is one forward pass of an abstract interpretation over the program text.  For EVERY program it
+   accepts, any number of threads and every schedule (with every outcome of the conditional exits): each thread that returned
+   holds the object the table holds, and that object is the only one ever stored under the key. *)
+From Measured Require Import Model.NewProg Proofs.NewProgFacts.
+
+Theorem C20_program_safe : forall p, prog_safe p = true -> forall n sched o,
+  let s := prun p (pinit n) sched in
+  In o (presults s) -> table (fst s) = Some o /\ created (fst s) = [o].
+Proof. exact safe_program_singleton. Qed.
+Print Assumptions C20_program_safe.
+
+Theorem C20_program_results_agree : forall p, prog_safe p = true -> forall n sched o1 o2,
+  In o1 (presults (prun p (pinit n) sched)) -> In o2 (presults (prun p (pinit n) sched)) -> o1 = o2.
+Proof. exact safe_program_results_agree. Qed.
+Print Assumptions C20_program_results_agree.
+
+(* every schedule observed on the implementation and replayed on the program (the per-run obligation traces_replay) is a run of the
+   model, so the theorem above speaks about it *)
+Theorem C20_replayed_schedules_are_runs : forall p evs s s', replay p s evs = Some s' -> exists sched, prun p s sched = s'.
+Proof. exact replay_run. Qed.
+Print Assumptions C20_replayed_schedules_are_runs.
+
+(* non-vacuity: the three shapes the shipped constructors have today are accepted (the per-run obligation re-derives them from
+   the source), and so are a double-checked variant and one that publishes with setdefault and returns what setdefault returned *)
+Example C20_shipped_shapes_accepted :
+  prog_safe [ISkip; IAcquire; IGet false; IRetTabIf false; IAlloc; ISkip; IStore; IRetSelf] = true /\
+  prog_safe [IMayLeave; ISkip; IGet true; IMayLeave; IMayLeave; IAcquire; IGetDefault true; IRetIf true; IAlloc; ISkip; IStore; IRetSelf] = true /\
+  prog_safe [ISkip; IAcquire; IGet false; IRetTabIf false; IMayLeave; IAlloc; ISkip; IMayLeave; IStore; IRetSelf] = true /\
+  prog_safe [IGet true; IRetIf true; IAcquire; IGetDefault true; IRetIf true; IAlloc; IStore; IRelease; IRetSelf] = true /\
+  prog_safe [IAlloc; IAcquire; ISetDefault (Some true); IRelease; IRetReg true] = true.
+Proof. vm_compute. repeat split. Qed.
+
+(* ... and the acceptance is not a formality: "look up, allocate, publish with setdefault under the lock, return self" -- the
+   loser of the race returns its own unregistered twin -- is rejected, and two threads do get two objects *)
+Theorem C20_setdefault_return_self_refuted :
+  let p := [IGet true; IRetIf true; IAlloc; ISkip; IAcquire; ISetDefault None; IRelease; IRetSelf] in
+  prog_safe p = false /\
+  exists sched, presults (prun p (pinit 2) sched) = [0; 1] /\ created (fst (prun p (pinit 2) sched)) = [0].
+Proof.
+  split; [vm_compute; reflexivity|].
+  exists [(0,false);(0,false);(1,false);(1,false);(0,false);(0,false);(0,false);(0,false);(0,false);(0,false);(1,false);(1,false);(1,false);(1,false);(1,false);(1,false)].
+  vm_compute. split; reflexivity.
+Qed.
